@@ -20,6 +20,7 @@ EXPECTED = {
     "fill_clears_all": True,
     "fill_skips_shared": True,
     "new_const_disp_bits": 32,
+    "log_max_log2": 3,
 }
 
 
@@ -137,6 +138,17 @@ def extract(repo):
         out["new_const_disp_bits"] = int(m.group(1))
     else:
         fail("new_const_disp_bits", "BaseCompiler::_new_const no longer builds BaseMem(..., from_size(uint32_t(size)), pool->label_id(), 0, intN_t(off))", 0)
+    # the logging branch of BaseAssembler::embed_const_pool
+    try:
+        asm = strip_comments(open(os.path.join(repo, "asmjit/core/assembler.cpp")).read())
+    except OSError:
+        asm = ""
+    ec = body_of(asm, r"Error\s+BaseAssembler::embed_const_pool\s*\([^)]*\)\s*\{")
+    m = ec and re.search(r"data_size_log2\s*=\s*Support::min<uint32_t>\(\s*Support::ctz\(pool\.min_item_size\(\)\)\s*,\s*(\d+)\s*\)", ec)
+    if m and re.search(r"size\s*>>\s*data_size_log2", ec) and re.search(r"data_size\s*=\s*1\s*<<\s*data_size_log2", ec):
+        out["log_max_log2"] = int(m.group(1))
+    else:
+        fail("log_max_log2", "the logging branch of BaseAssembler::embed_const_pool no longer has the known shape", 0)
     for k in EXPECTED:
         out.setdefault(k, None)
     return out, problems
@@ -158,13 +170,13 @@ Local Open Scope Z_scope.
 Definition src_params : params :=
   mkParams %d [%s]
     [%s] (%d%%nat, %d)
-    %d %d %s %s %s %s %d.
+    %d %d %s %s %s %s %d %d.
 
 Lemma C19_params_ok : src_params = model_params.
 Proof. vm_compute. reflexivity. Qed.
 Print Assumptions C19_params_ok.
 """ % (par["index_count"], sizes, chain, max(par["gap_else"][0], 0), par["gap_else"][1], par["share_above"], par["offset_bits"],
-       b(par["loop_same_bucket"]), b(par["loop_breaks"]), b(par["fill_clears_all"]), b(par["fill_skips_shared"]), par["new_const_disp_bits"])
+       b(par["loop_same_bucket"]), b(par["loop_breaks"]), b(par["fill_clears_all"]), b(par["fill_skips_shared"]), par["new_const_disp_bits"], par["log_max_log2"])
 
 
 def differences(par):
